@@ -38,9 +38,22 @@ CHECKS = {
             "Harness and CLI are built with overflow-checks on (the profile of the repository's own tests). Arbitrary 4 KiB texts are far beyond "
             "any exhaustive bound and are not claimed; a 20 s per-input watchdog is the only time-based verdict and every hang is re-run alone.",
             "DESIGN.md section 4 C04"),
+    "C01": ("exploration",
+            "bounded-exhaustive enumeration of programs by construct strata through eval_string against a tree-walking reference interpreter",
+            "S1: all 18 binary operators x every ordered pair of 27 leaves (atoms incl. ill-typed and failing ones); S2: each of ~110 construct "
+            "templates (operators with short-circuit variants, selectors, select arms/defaults, inline and let-bound functions, copy with self, "
+            "modules with parameters/out-expressions, map/filter/reduce over lists/tuples/strings, both format forms, ranges, casts, in/is, "
+            "fail, TRACE) x every leaf, as let and as expression statement; S3: every ordered pair and triple of templates nested along one path "
+            "(1.3 M programs); S4: statement sequences with closures, shadowing, curried functions, module and format scopes. Each program is "
+            "printed with minimal parentheses, run by FileBuilder::eval_string and compared with vf/refsem.py on success/failure, failure class "
+            "and every top-level binding (floats bitwise). Exhaustive for these strata; deeper programs are not covered.",
+            "Trusts the reference interpreter (written from the reference manual; behaviour the manual leaves open is pinned and marked PIN: in "
+            "vf/refsem.py). Regex patterns are restricted to a set on which Python re and Rust regex agree. import/include/out/convert/assert "
+            "are owned by C09/C15/C14/C03/C13.",
+            "DESIGN.md section 4 C01"),
 }
 
-CLAIMED = ["C02", "C04", "C11"]
+CLAIMED = ["C01", "C02", "C04", "C11"]
 
 NOT_YET = "check not built yet in this round; design in DESIGN.md section 4 (bounded-exhaustive enumeration applies)"
 
